@@ -323,14 +323,22 @@ def _margin_tests(fn, defs):
                 if a is not None and isinstance(e.right, ast.Name) and e.right.id in fvars:
                     return a, True
             return None, False
-        lhs, rel = absdiff(l)
-        if lhs is None and isinstance(l, ast.Name) and l.id in defs:
-            for v in defs[l.id]:
-                lhs, rel = absdiff(v)
-                if lhs is not None:
-                    break
+        def side(e):
+            a, rl = absdiff(e)
+            if a is None and isinstance(e, ast.Name) and e.id in defs:
+                for v in defs[e.id]:
+                    a, rl = absdiff(v)
+                    if a is not None:
+                        break
+            return a, rl
+        lhs, rel = side(l)
         if lhs is None:
-            continue
+            # the deviation on the right-hand side (`f*m < abs(..)`, the canonical reading of `abs(..) > f*m`): mirror the test
+            lhs, rel = side(r)
+            if lhs is None:
+                continue
+            l, r = r, l
+            op = {ast.Lt: ast.Gt, ast.LtE: ast.GtE, ast.Gt: ast.Lt, ast.GtE: ast.LtE}.get(type(op), type(op))()
         if not (_mentions(lhs, fvars)):
             continue
         if not (_mentions(r, fvars) or _mentions(r, mvars)):
@@ -451,6 +459,27 @@ def run(ctx):
                            "" if ok else f"`{norm(n)}` is a{'n upper' if upper else ' lower'} bound of the search (window element "
                                          f"{'[0] in the denominator / [1] in the numerator' if upper else '[1] in the denominator / [0] in the numerator'}) "
                                          f"but rounds {'up' if is_ceil else 'down'}: the first value outside the window is searched and can be returned", n)
+    ctx.rule("G9", "the VCO guard band narrows the window: wherever vco_margin scales a window edge, the lower edge (vco min / range[0]) "
+                   "is multiplied by (1 + margin) and the upper edge (vco max / range[1]) by (1 - margin)", min_sites=10)
+    for p9 in sorted(ctx.mod(D + "common.py") and [f for f in ("gowin_gw1n.py", "gowin_gw5a.py", "intel_common.py", "xilinx_common.py", "xilinx_usp.py")]):
+        m9 = ctx.mod(D + p9)
+        for cname9, c9 in m9.classes.items():
+            for fn9 in [x for x in c9.body if isinstance(x, ast.FunctionDef)]:
+                for n in ast.walk(fn9):
+                    if not (isinstance(n, ast.BinOp) and isinstance(n.op, ast.Mult)):
+                        continue
+                    for edge, fac in ((n.left, n.right), (n.right, n.left)):
+                        if isinstance(fac, ast.BinOp) and isinstance(fac.op, (ast.Add, ast.Sub)) and norm(fac.left) == "1" and \
+                                norm(fac.right).endswith("vco_margin"):
+                            et = norm(edge)
+                            lower = "min" in et or et.endswith("range[0]")
+                            upper = "max" in et or et.endswith("range[1]")
+                            if lower == upper:
+                                continue
+                            ok = isinstance(fac.op, ast.Add) == lower
+                            ctx.ob("G9", D + p9, f"{cname9}.{fn9.name}", f"{'lower' if lower else 'upper'} VCO edge {et} * {norm(fac)}", ok,
+                                   "" if ok else f"`{norm(n)}` widens the window on the {'lower' if lower else 'upper'} side: VCO frequencies outside "
+                                                 f"the declared device range are accepted when a guard band is requested", n)
     ctx.rule("G7", "no None / 0 confusion: a name or config[...] slot that holds None for 'nothing chosen' and otherwise an index or "
                    "number (assigned a non-boolean value) is tested with `is None` / `is not None`, never by truthiness -- index 0 / "
                    "value 0 is a legal choice", min_sites=2)
